@@ -81,8 +81,10 @@ type verifC43Msg struct {
 	id      int
 	kind    string
 	items   []string // item kinds: ok, wrongVersion, wrongChain, invalidOther, createErr, otherShard
-	bypass  string   // "", "preferred", "self"
+	bypass  string   // decided by the CONNECTED peer: "", "preferred", "self"
+	origin  string   // originator of the message (message.Peer()): "originator", "preferred", "originator-not-eligible"
 	hold    bool
+	open    bool // gate not closed yet
 	gate    chan struct{}
 	entered chan struct{}
 	topicN  int // number of CanProcessMessagesOnTopic calls seen for this message
@@ -248,13 +250,16 @@ func (h *verifC43Harness) newMsg(kind string, items []string, bypass string, hol
 	h.mu.Lock()
 	defer h.mu.Unlock()
 	h.nextID++
-	m := &verifC43Msg{id: h.nextID, kind: kind, items: items, bypass: bypass, hold: hold, gate: make(chan struct{}), entered: make(chan struct{})}
+	m := &verifC43Msg{id: h.nextID, kind: kind, items: items, bypass: bypass, origin: "originator", hold: hold, open: true, gate: make(chan struct{}), entered: make(chan struct{})}
+	if kind == "originatorNotEligible" {
+		m.origin = "originator-not-eligible"
+	}
 	h.msgs[m.id] = m
 	return m
 }
 
 func (h *verifC43Harness) p2pMessage(m *verifC43Msg) (*mock.P2PMessageMock, core.PeerID, error) {
-	msg := &mock.P2PMessageMock{SeqNoField: []byte(strconv.Itoa(m.id)), PeerField: "originator", TopicField: "verif", FromField: []byte("someone"), SignatureField: []byte("sig")}
+	msg := &mock.P2PMessageMock{SeqNoField: []byte(strconv.Itoa(m.id)), PeerField: core.PeerID(m.origin), TopicField: "verif", FromField: []byte("someone"), SignatureField: []byte("sig")}
 	from := core.PeerID("connected")
 	switch m.bypass {
 	case "preferred":
@@ -263,9 +268,6 @@ func (h *verifC43Harness) p2pMessage(m *verifC43Msg) (*mock.P2PMessageMock, core
 		from = "self"
 		msg.FromField = []byte("self")
 		msg.SignatureField = []byte("self")
-	}
-	if m.kind == "originatorNotEligible" {
-		msg.PeerField = "originator-not-eligible"
 	}
 	buffs := make([][]byte, len(m.items))
 	for i, k := range m.items {
@@ -319,6 +321,31 @@ func (h *verifC43Harness) waitChan(ch chan struct{}) bool {
 	}
 }
 
+// waitEnteredOrReleased: the processing goroutine of m entered the processor, or the interceptor holds no slot besides
+// those of the held messages (m is not being processed)
+func (h *verifC43Harness) waitEnteredOrReleased(m *verifC43Msg) string {
+	deadline := time.After(verifC43WaitTimeout)
+	for {
+		select {
+		case <-m.entered:
+			return "entered"
+		default:
+		}
+		starts, ends := h.th.counts()
+		if ends >= starts-len(h.held) {
+			return "released"
+		}
+		select {
+		case <-m.entered:
+			return "entered"
+		case <-h.th.endCh:
+		case <-time.After(50 * time.Millisecond):
+		case <-deadline:
+			return "timeout"
+		}
+	}
+}
+
 // waitReleased waits until the interceptor released all the slots it took except those of the held messages
 func (h *verifC43Harness) waitReleased() bool {
 	deadline := time.After(verifC43WaitTimeout)
@@ -337,14 +364,28 @@ func (h *verifC43Harness) waitReleased() bool {
 	}
 }
 
+func (h *verifC43Harness) closeGate(m *verifC43Msg) {
+	h.mu.Lock()
+	wasOpen := m.open
+	m.open = false
+	h.mu.Unlock()
+	if wasOpen {
+		close(m.gate)
+	}
+}
+
+// releaseAll lets every processing goroutine finish (also those of messages the harness did not expect to be processed)
 func (h *verifC43Harness) releaseAll() {
 	h.mu.Lock()
-	ids := h.held
 	h.held = nil
-	for _, id := range ids {
-		close(h.msgs[id].gate)
+	all := make([]*verifC43Msg, 0, len(h.msgs))
+	for _, m := range h.msgs {
+		all = append(all, m)
 	}
 	h.mu.Unlock()
+	for _, m := range all {
+		h.closeGate(m)
+	}
 }
 
 func (h *verifC43Harness) snapshot() (int, int, int) {
@@ -370,11 +411,24 @@ func (h *verifC43Harness) deliver(rt *rapid.T, c *kit.Case, m *verifC43Msg) stri
 			rt.Fatalf("fixture: message %d (%s) was accepted but its processing did not start within %v; trace %v", m.id, m.kind, verifC43WaitTimeout, h.trace)
 		}
 		res = "admitted"
-		h.held = append(h.held, m.id)
+	case errProc == nil:
+		// nil without a prediction: either the slot was given back before returning (nothing is processed) or a
+		// processing goroutine is on its way into the processor
+		switch h.waitEnteredOrReleased(m) {
+		case "entered":
+			res = "admitted"
+			c.Class("processed-although-a-refusal-was-expected")
+		case "timeout":
+			rt.Fatalf("fixture: message %d (%s) returned nil, neither processing nor the release of its slot was seen within %v; trace %v", m.id, m.kind, verifC43WaitTimeout, h.trace)
+		}
 	case h.processable(m):
-		rt.Fatalf("fixture: a valid message was refused with %v; trace %v", errProc, h.trace)
+		// stricter than expected (e.g. a peer that may skip the checks was checked): not a matter of the statement
+		c.Class("refused-although-processing-was-expected")
 	}
-	desc := fmt.Sprintf("%s%s(%s)=%s", m.kind, m.bypass, strings.Join(m.items, ","), res)
+	if res == "admitted" {
+		h.held = append(h.held, m.id)
+	}
+	desc := fmt.Sprintf("%s[from:%s,orig:%s](%s)=%s", m.kind, m.bypass, m.origin, strings.Join(m.items, ","), res)
 	h.trace = append(h.trace, desc)
 	inflight, worst, bypassIn := h.snapshot()
 	if worst > h.max {
@@ -391,7 +445,7 @@ func (h *verifC43Harness) deliver(rt *rapid.T, c *kit.Case, m *verifC43Msg) stri
 			}
 		}
 		h.mu.Unlock()
-		close(m.gate)
+		h.closeGate(m)
 		h.trace = append(h.trace, "release")
 	}
 	if !h.waitReleased() {
@@ -429,7 +483,13 @@ func verifC43GenMsg(rt *rapid.T, h *verifC43Harness) *verifC43Msg {
 	case 7:
 		bypass = "self"
 	}
-	return h.newMsg(kind, items, bypass, rapid.Bool().Draw(rt, "hold"))
+	m := h.newMsg(kind, items, bypass, rapid.Bool().Draw(rt, "hold"))
+	// the originator is independent of the peer the message is received from: a preferred peer's own messages are
+	// mostly relayed by ordinary peers, and preferred peers relay messages of others
+	if m.origin == "originator" && rapid.IntRange(0, 3).Draw(rt, "originatorIsPreferredPeer") == 0 {
+		m.origin = "preferred"
+	}
+	return m
 }
 
 func verifC43RunCase(rt *rapid.T, c *kit.Case, max int, multi bool) {
@@ -467,7 +527,11 @@ func verifC43RunCase(rt *rapid.T, c *kit.Case, max int, multi bool) {
 			if multi && rapid.Bool().Draw(rt, "twoItems") {
 				items = []string{"ok", "ok"}
 			}
-			res := h.deliver(rt, c, h.newMsg("valid", items, "", true))
+			bm := h.newMsg("valid", items, "", true)
+			if rapid.IntRange(0, 2).Draw(rt, "burstOriginatorIsPreferredPeer") == 0 {
+				bm.origin = "preferred"
+			}
+			res := h.deliver(rt, c, bm)
 			if res == "admitted" {
 				admitted++
 			}
@@ -501,7 +565,7 @@ func verifC43RunCase(rt *rapid.T, c *kit.Case, max int, multi bool) {
 
 func TestVerifC43_Interceptors(t *testing.T) {
 	kit.Run(t, "C43", kit.Budget{Quick: 300, Thorough: 4000},
-		"real MultiDataInterceptor / SingleDataInterceptor with a real NumGoRoutinesThrottler (max 1..4); 1-2 rounds of (0-12 drawn messages: valid batches of 1-3 items, items with ErrInvalidTransactionVersion / ErrInvalidChainID / another validity error / factory error / other shard, undecodable and empty batches, antiflood refusals at message or topic level, originator not eligible, nil data; 25 % from a preferred peer or from self, which skip CanProcess by design; each admitted message is either kept in processing or finished at once) followed by a burst of max+1..3 valid messages; oracle = number of processing goroutines (of messages that passed CanProcess) inside the blocking processor stub at the same time <= max; non-trivial = the burst filled the throttler exactly, a message was refused as busy and at least one message took an error path after acquiring a slot; distinct by delivery trace",
+		"real MultiDataInterceptor / SingleDataInterceptor with a real NumGoRoutinesThrottler (max 1..4); 1-2 rounds of (0-12 drawn messages: valid batches of 1-3 items, items with ErrInvalidTransactionVersion / ErrInvalidChainID / another validity error / factory error / other shard, undecodable and empty batches, antiflood refusals at message or topic level, originator not eligible, nil data; 25 % received from a preferred peer or from self, which skip CanProcess by design; independently 25 % originated by the preferred peer; each admitted message is either kept in processing or finished at once) followed by a burst of max+1..3 valid messages; oracle = number of processing goroutines (of messages that passed CanProcess) inside the blocking processor stub at the same time <= max; non-trivial = the burst filled the throttler exactly, a message was refused as busy and at least one message took an error path after acquiring a slot; distinct by delivery trace",
 		func(rt *rapid.T, c *kit.Case) {
 			max := rapid.IntRange(1, 4).Draw(rt, "max")
 			multi := rapid.Bool().Draw(rt, "multi")
